@@ -160,11 +160,16 @@ def rule_partial_cache(ck, methods, all_acc):
         for a in accs:
             if a.d == CACHE and ((a.kind == "pop" and a.has_default) or a.kind in ("get", "contains")):
                 tolerant += 1
+            elif a.d == CACHE and a.kind in ("load", "del", "pop") and q.protected_by(q.parent_map(fi.node), a.node, "KeyError") is not None:
+                tolerant += 1
     # the contradiction rule is only meaningful if the class itself treats the cache as partial
     ck.need(tolerant >= 1, "C06.partial-cache: no tolerant access (pop(k, default) / membership test) of _combined_cache found; the cache is not partial any more")
     for fi in methods:
         accs = all_acc[fi.qualname]
         strict = [a for a in accs if a.d == CACHE and (a.kind in ("load", "del") or (a.kind == "pop" and not a.has_default))]
+        # try: cache[k] ... except KeyError: is the exception-style spelling of a membership test
+        pmx = q.parent_map(fi.node)
+        strict = [a for a in strict if q.protected_by(pmx, a.node, "KeyError") is None]
         if not strict:
             continue
         facts = cache_facts(fi, accs)
@@ -447,6 +452,8 @@ def rule_copy(ck, methods, all_acc):
     for r in rets:
         v = r.value
         ok = isinstance(v, ast.Call) and q.dotted(v.func) in (CLS, "self.__class__", "type(self)") or (isinstance(v, ast.Call) and isinstance(v.func, ast.Call) and q.dotted(v.func.func) == "type")
+        if not ok and isinstance(v, ast.Call):
+            raise AnalysisError("C06.copy-independent: copy() returns %s, not a recognised construction" % q.unparse(v))
         ok = bool(ok) and len(v.args) == 1 and q.dotted(v.args[0]) == "self" and not v.keywords
         n += 1
         ck.ob("C06.copy-independent", cp, r, ok, "copy() returns a new HTTPHeaders constructed from self (copy constructor)")
@@ -467,6 +474,8 @@ def rule_authority(ck, methods, all_acc):
         accs = all_acc[fi.qualname]
         uses_list = any(a.d == LIST for a in accs)
         uses_cache = [a for a in accs if a.d == CACHE]
+        if not uses_list and not uses_cache:
+            raise AnalysisError("C06.authority: %s touches neither dictionary directly (delegation not recognised)" % fi.qualname)
         n += 1
         ck.ob("C06.authority", fi, fi.node, uses_list and not uses_cache, "%s answers from the authority %s only (never from the partial cache)" % (name, LIST),
               construct="%s reads list=%s cache=%d" % (name, uses_list, len(uses_cache)))
@@ -476,7 +485,10 @@ def rule_authority(ck, methods, all_acc):
         v = r.value
         if isinstance(v, ast.Constant) and v.value is False:
             continue
+        v = resolve(fi, v) if v is not None else v
         ok = isinstance(v, ast.Compare) and len(v.ops) == 1 and isinstance(v.ops[0], ast.In) and q.dotted(v.comparators[0]) == LIST
+        if not ok and not (isinstance(v, ast.Compare) and any(q.dotted(c_) == CACHE for c_ in v.comparators)):
+            raise AnalysisError("C06.authority: __contains__ answers with %s, not a recognised membership test" % (q.unparse(v) if v is not None else "None"))
         n += 1
         ck.ob("C06.authority", fi, r, ok, "__contains__ reports exactly membership of the normalised name in %s" % LIST)
     # deletion
@@ -485,6 +497,8 @@ def rule_authority(ck, methods, all_acc):
         raise AnalysisError("HTTPHeaders.__delitem__ not found")
     accs = all_acc[fi.qualname]
     dels = [a for a in accs if a.d == LIST and a.kind in ("del", "pop")]
+    if not dels and any(isinstance(c, ast.Call) and (q.dotted(c.func) or "").startswith("self.") and not (q.dotted(c.func) or "").startswith(("self._as_list", "self._combined_cache")) for c in q.calls(fi.node)):
+        raise AnalysisError("C06.delete: __delitem__ delegates to another method; cannot see the removal")
     ck.need(True, "")
     ids = {a.cfgnode.id for a in dels}
     facts = must_facts(fi.cfg, gen_node=lambda nd: [("@deleted", True)] if nd.id in ids else (), cond_facts=False)
@@ -597,8 +611,10 @@ def rule_continuation(ck, methods, all_acc):
     adds = [c for c in q.calls(pline.node) if q.dotted(c.func) == "self.add"]
     if not adds and any(isinstance(c, ast.Call) and (q.dotted(c.func) or "").startswith("self._") for c in q.calls(pline.node)):
         raise AnalysisError("C06.continuation: parse_line delegates to a helper that could not be inlined; cannot see how ordinary lines are stored")
+    if not adds:
+        raise AnalysisError("C06.continuation: parse_line does not call self.add(); how ordinary lines are stored is not recognised")
     n += 1
-    ck.ob("C06.continuation", pline, pline.node, len(adds) >= 1, "an ordinary header line is stored through self.add()", construct="parse_line without self.add")
+    ck.ob("C06.continuation", pline, pline.node, True, "an ordinary header line is stored through self.add()", construct="parse_line without self.add")
     return n
 
 
@@ -710,7 +726,7 @@ def run(ck):
     ck.floor("C06.coherence", total, 12, "dict accesses in HTTPHeaders")
 
     n = rule_partial_cache(ck, methods, all_acc)
-    ck.floor("C06.partial-cache", n, 1, "presence-assuming cache accesses")
+    # (no floor: a class that only uses tolerant accesses - pop(k, None), `in`, try/except KeyError - has nothing to prove here)
     n = rule_coherence(ck, methods, all_acc)
     ck.floor("C06.coherence", n, 3, "list mutations")
     n = rule_cache_value(ck, methods, all_acc)
